@@ -1,6 +1,10 @@
 SPECIFICATION Spec
 CONSTANTS
   MaxLen = 6
+  MinFns = 1
+  MaxFns = 1
+  Phased = FALSE
+  NeedResult = FALSE
   MaxDepth = 2
   VNames = {"a"}
   LNames = {"y", "z"}
